@@ -5,6 +5,8 @@ from mc import core, det
 PROPERTY = 'C18'
 ENGINE = 'E1 bounded-exhaustive enumeration of (length, value, operand) against a list-of-bits reference model'
 LEVEL = 'model_checking'
+DIRECTED_ADDITIONS = 'compositions of operators, aliasing (returned lists modified in place), pickle / copy round trips, byte strings that are too wide / empty / carry leading zero bytes'      # members added during the seeded-change campaign (DESIGN 7); counted under their own vacuity counters
+
 
 
 # ------------------------------------------------------------------ reference model: MSB-first list of 0/1
@@ -34,6 +36,12 @@ def m_ext(m, n):
 
 
 def describe(tier):
+    d = _describe(tier)
+    d['rule'] = d['rule'] + ' Directed additions: ' + DIRECTED_ADDITIONS + '.'
+    return d
+
+
+def _describe(tier):
     full = 8
     return {
         'rule': 'case = (operation, length n, value v[, second operand / shift / k / index / slice]); exhaustive: every v for every '
